@@ -16,6 +16,7 @@ import (
 	"runtime"
 	"runtime/debug"
 	"strconv"
+	"strings"
 	"sync/atomic"
 	"time"
 
@@ -96,6 +97,11 @@ func workerC17(args []string) int {
 	defer f.Close()
 	enc := json.NewEncoder(f)
 	debug.SetGCPercent(20)
+	// "validator:<mode>": the signature validation mode of the validator path (default none)
+	sigMode := "none"
+	if i := strings.Index(mode, ":"); i > 0 {
+		mode, sigMode = mode[:i], mode[i+1:]
+	}
 	switch mode {
 	case "reader":
 		var inner crlreader.CRLProcessor
@@ -148,7 +154,7 @@ func workerC17(args []string) int {
 				}
 			}
 		}()
-		cfg := fmt.Sprintf(`{"mode":"crl_only","crl_config":{"work_dir":%q,"storage_type":%q,"signature_validation_mode":"none","update_interval":"1h","crl_urls":[%q]}}`, dir, store, path)
+		cfg := fmt.Sprintf(`{"mode":"crl_only","crl_config":{"work_dir":%q,"storage_type":%q,"signature_validation_mode":%q,"update_interval":"1h","crl_urls":[%q]}}`, dir, store, sigMode, path)
 		v := &revocation.CertRevocationValidator{}
 		if err := caddy.StrictUnmarshalJSON([]byte(cfg), v); err != nil {
 			return 2
@@ -245,7 +251,8 @@ type c17Run struct {
 	Store string
 	N     int
 	Pem   bool
-	NoLF  bool // DER without any line feed byte before its crlExtensions
+	NoLF  bool   // DER without any line feed byte before its crlExtensions
+	Sig   string // validator path: signature validation mode ("" = none); the signer of the big lists is not configured as trusted
 }
 
 // C17 — streaming memory bound.
@@ -285,12 +292,14 @@ func C17(c *vk.Ctx) {
 	defer srv.Close()
 	runs := []c17Run{}
 	for _, n := range []int{n1, n2} {
-		runs = append(runs, c17Run{"reader", "none", n, false, false}, c17Run{"reader", "none", n, true, false}, c17Run{"reader", "disk", n, false, false},
-			c17Run{"validator", "disk", n, true, false}, c17Run{"validator", "disk", n, false, false},
-			c17Run{Mode: "reader", Store: "none", N: n, NoLF: true}, c17Run{Mode: "validator", Store: "disk", N: n, NoLF: true})
+		runs = append(runs, c17Run{Mode: "reader", Store: "none", N: n, Pem: false, NoLF: false}, c17Run{Mode: "reader", Store: "none", N: n, Pem: true, NoLF: false}, c17Run{Mode: "reader", Store: "disk", N: n, Pem: false, NoLF: false},
+			c17Run{Mode: "validator", Store: "disk", N: n, Pem: true, NoLF: false}, c17Run{Mode: "validator", Store: "disk", N: n, Pem: false, NoLF: false},
+			c17Run{Mode: "reader", Store: "none", N: n, NoLF: true}, c17Run{Mode: "validator", Store: "disk", N: n, NoLF: true},
+			// the list is taken in although its signer cannot be verified (verify_log): that path reads the same file
+			c17Run{Mode: "validator", Store: "disk", N: n, Sig: "verify_log"})
 	}
 	if c.Thorough() {
-		runs = append(runs, c17Run{"reader", "disk", n2, true, false}, c17Run{"reader", "memory", n1, false, false}, c17Run{Mode: "reader", Store: "disk", N: n2, NoLF: true})
+		runs = append(runs, c17Run{Mode: "reader", Store: "disk", N: n2, Pem: true, NoLF: false}, c17Run{Mode: "reader", Store: "memory", N: n1, Pem: false, NoLF: false}, c17Run{Mode: "reader", Store: "disk", N: n2, NoLF: true})
 	}
 	var states, trans int64
 	validated := 0
@@ -305,7 +314,11 @@ func C17(c *vk.Ctx) {
 			arg = srv.URL + "/" + filepath.Base(path)
 		}
 		out := filepath.Join(dir, "trace.ndjson")
-		cmd := exec.Command(self, "worker", "c17", r.Mode, arg, strconv.Itoa(r.N), r.Store, out)
+		wmode := r.Mode
+		if r.Sig != "" {
+			wmode += ":" + r.Sig
+		}
+		cmd := exec.Command(self, "worker", "c17", wmode, arg, strconv.Itoa(r.N), r.Store, out)
 		cmd.Env = os.Environ()
 		if b, err := cmd.CombinedOutput(); err != nil {
 			c.Infra("c17 worker %+v: %v\n%s", r, err, string(b))
@@ -331,6 +344,9 @@ func C17(c *vk.Ctx) {
 		key := fmt.Sprintf("%s/%s/pem=%v", r.Mode, r.Store, r.Pem)
 		if r.NoLF {
 			key += "/nolf"
+		}
+		if r.Sig != "" {
+			key += "/sig=" + r.Sig
 		}
 		if maxHeap[key] == nil {
 			maxHeap[key] = map[int]int64{}
@@ -359,7 +375,7 @@ func C17(c *vk.Ctx) {
 		validated++
 		c.Eval(fmt.Sprintf("%+v", r))
 		if res.Violation != "" {
-			c.Violation(fmt.Sprintf("memory-grows-with-entries:%s:store=%s:pem=%v:nolf=%v", r.Mode, r.Store, r.Pem, r.NoLF),
+			c.Violation(fmt.Sprintf("memory-grows-with-entries:%s:store=%s:pem=%v:nolf=%v:sig=%s", r.Mode, r.Store, r.Pem, r.NoLF, r.Sig),
 				fmt.Sprintf("trace of reading %d entries violates heap <= C0 + C1*(held+resident) with C0 = %d KiB, C1 = %d: peak live heap %d KiB (first sample %d KiB)", r.N, c0, c1, peak, first.Heap),
 				map[string]any{"run": r, "peak_kib": peak, "first_kib": first.Heap, "tlc": firstLines(res.Violation, 6)})
 		}
